@@ -160,6 +160,12 @@ pub fn eval_case(ops: &[Op], drv: Option<&mut Drv>, pools: &[Pool], rng: &mut Rn
     let lay = match identify(&mut disp, &shared, &built) {
         Ok(l) => l,
         Err(e) => {
+            if Op::depth(ops) > 0 {
+                out.impl_v.push(("C07".into(), format!("{} (a dispatcher with batches)", e)));
+            }
+            if Op::has_tl_in_batch(ops, false) || ops.iter().any(|o| matches!(o, Op::Tl { .. })) {
+                out.impl_v.push(("C12".into(), format!("{} (a dispatcher with thread-local systems)", e)));
+            }
             out.impl_v.push(("C04".into(), e));
             return out;
         }
@@ -377,6 +383,9 @@ pub fn eval_case(ops: &[Op], drv: Option<&mut Drv>, pools: &[Pool], rng: &mut Rn
                     out.impl_v.push(("C04".into(), format!("mode {}: system {} ran {} times, expected {}", mode, t, got, w)));
                     if cfg.panics {
                         out.impl_v.push(("C14".into(), format!("mode {}: in the dispatch after a caught panic system {} ran {} times, expected {}", mode, t, got, w)));
+                    }
+                    if res.is_ok() && built.infos.get(t).map(|i| i.parent.is_some()).unwrap_or(false) {
+                        out.impl_v.push(("C07".into(), format!("mode {}: system {} inside a batch ran {} times in one dispatch, expected {} (once per inner dispatch)", mode, t, got, w)));
                     }
                     if res.is_ok() && built.infos.get(t).map(|i| i.is_tl).unwrap_or(false) {
                         out.impl_v.push(("C12".into(), format!("mode {}: thread-local system {} ran {} times in one dispatch, expected {}", mode, t, got, w)));
